@@ -11,7 +11,7 @@ import subprocess, sys, os, re, json
 WT = "/tmp/c08-wt"
 VERIF = os.path.dirname(os.path.dirname(os.path.abspath(__file__)))
 # fixes not yet committed in /repo (F11, F4, F5 are in /repo HEAD)
-FIXES = [f[:-5] for f in sorted(os.listdir(os.path.join(os.path.dirname(os.path.dirname(os.path.abspath(__file__))), "fixes"))) if f.startswith("F11b-")]
+FIXES = []          # every fix of fixes/ is committed in /repo
 def sh(cmd, **kw):
     return subprocess.run(cmd, shell=True, stdout=subprocess.PIPE, stderr=subprocess.STDOUT, text=True, **kw)
 def reset():
@@ -53,6 +53,13 @@ MUT = {
             os.chmod(str(temp_filename), st.st_mode)
         except OSError:
             pass # not member of group"""),
+ "c09-expand-realpath-dedup": ("C09", "lib/python/pyflyby/_file.py", """            if f.isfile:
+                if f.ext == ".py":
+                    stack.append((f, True))""", """            if f.isfile:
+                if f.ext == ".py" and f.realpath not in seen:
+                    seen.add(f.realpath)
+                    stack.append((f.realpath, True))"""),
+ "c08-memoized-suffix": ("C08", "lib/python/pyflyby/_file.py", 'def atomic_write_file(filename: Filename, data):\n    assert isinstance(filename, Filename)\n    data = FileText(data)\n    temp_filename = Filename("%s.tmp.%s" % (filename, os.getpid(),))', '_SUFFIX = []\n\ndef _temp_suffix():\n    if not _SUFFIX:\n        _SUFFIX.append(os.getpid())\n    return _SUFFIX[0]\n\ndef atomic_write_file(filename: Filename, data):\n    assert isinstance(filename, Filename)\n    data = FileText(data)\n    temp_filename = Filename("%s.tmp.%s" % (filename, _temp_suffix(),))'),
  "c08-suffix-at-import": ("C08", "lib/python/pyflyby/_file.py", 'def atomic_write_file(filename: Filename, data):\n    assert isinstance(filename, Filename)\n    data = FileText(data)\n    temp_filename = Filename("%s.tmp.%s" % (filename, os.getpid(),))', '_TMP_SUFFIX = os.getpid()\n\ndef atomic_write_file(filename: Filename, data):\n    assert isinstance(filename, Filename)\n    data = FileText(data)\n    temp_filename = Filename("%s.tmp.%s" % (filename, _TMP_SUFFIX,))'),
 }
 def main(names):
@@ -63,8 +70,11 @@ def main(names):
         prop, path, old, new = MUT[name]
         reset()
         p = os.path.join(WT, path); s = open(p).read(); assert old in s, name
-        open(p, "w").write(s.replace(old, new, 1))
-        t = sh("timeout 900 /venv/bin/python -m pytest -q -p no:cacheprovider tests/%s 2>&1 | grep -E 'passed|failed' | tail -1" % ("test_file.py" if prop == "C08" else "test_cmdline.py"), cwd=WT)
+        s = s.replace(old, new, 1)
+        if name == "c09-expand-realpath-dedup":
+            s = s.replace("    stack = []\n    for pathname in reversed(pathnames):", "    stack = []\n    seen = set()\n    for pathname in reversed(pathnames):", 1)
+        open(p, "w").write(s)
+        t = sh("timeout 900 /venv/bin/python -m pytest -q -p no:cacheprovider tests/%s 2>&1 | grep -E 'passed|failed' | tail -1" % ("test_file.py tests/test_cmdline.py" if name == "c09-expand-realpath-dedup" else ("test_file.py" if prop == "C08" else "test_cmdline.py")), cwd=WT)
         env = dict(os.environ, VERIF_REPO=WT, VERIF_JOBS="4")
         r = sh("timeout 1500 ./check %s quick 2>&1 | tail -4" % prop, cwd=VERIF, env=env)
         last = r.stdout.strip().split("\n")
